@@ -126,6 +126,12 @@ MUTS = {
             hostname = strip_lang_subdomains_from_hostname(hostname)
 
         if strip_suffix:''')],
+    # revert of 0f0c826 in normalize_url
+    "M12-normalize_url-unconditional-slice": [(NU, '''    if (strip_protocol or not has_protocol) and result.startswith("//"):
+        result = result[2:]
+''', '''    if strip_protocol or not has_protocol:
+        result = result[2:]
+''')],
 }
 
 
